@@ -36,7 +36,7 @@ AbsentMark == "<absent>"
 NoCallRec == [op |-> "", k |-> "", v |-> "", d |-> 0, fn |-> "", lo |-> 0, hi |-> 0]
 NoRes == [rv |-> NilV, ok |-> FALSE, x |-> 0, n |-> 0, fo |-> NilV, fl |-> FALSE]
 IdleNest == [st |-> "idle", call |-> NoCallRec, res |-> NoRes]
-IdleThread == [st |-> "idle", call |-> NoCallRec, res |-> NoRes, cand |-> <<>>, visited |-> {}, evq |-> {}, cbseen |-> {}, nest |-> IdleNest]
+IdleThread == [st |-> "idle", call |-> NoCallRec, res |-> NoRes, cand |-> <<>>, visited |-> {}, evq |-> {}, cbseen |-> {}, bal0 |-> {}, nest |-> IdleNest]
 
 LinInit == S = InitState(0, NoCb, 0, 0) /\ th = [t \in Threads |-> IdleThread] /\ now = 0 /\ bal = {}
 
@@ -94,7 +94,7 @@ Call(t, ev) ==
   \/ /\ th[t].st = "idle"
      /\ th' = [th EXCEPT ![t] = [IdleThread EXCEPT
                  !.st = IF c.op \in {"Range", "Items"} THEN "range" ELSE IF c.op = "DeleteExpired" THEN "de" ELSE "called",
-                 !.call = c, !.cbseen = {S.cb},
+                 !.call = c, !.cbseen = {S.cb}, !.bal0 = bal,
                  !.cand = IF c.op \in {"Range", "Items"} THEN Snapshot(S, now) ELSE <<>>]]
      /\ UNCHANGED <<S, now, bal>>
   \/ /\ th[t].st \in {"range", "de", "lin"} /\ th[t].nest.st = "idle" /\ Atomic(c)
@@ -180,8 +180,9 @@ Ret(A, t, ev) ==
             stopped == n > 0 /\ ev.x >= n
         IN On(A, "vis",
               /\ (n > 0 => ev.x <= n)
+              /\ ev.n <= Cardinality(th[t].bal0)
               /\ (~stopped => /\ \A k \in DOMAIN th[t].cand : AbsentMark \notin th[t].cand[k] => k \in th[t].visited
-                              /\ ev.n = Cardinality(bal)))
+                              /\ (bal = th[t].bal0 => ev.n = Cardinality(bal))))
      /\ th' = [th EXCEPT ![t] = IdleThread]
      /\ UNCHANGED <<S, now, bal>>
   \/ /\ th[t].st = "range" /\ th[t].nest.st = "idle" /\ ev.op = "Items" /\ th[t].call.op = "Items"
